@@ -115,8 +115,11 @@ CHECKS = {
              "lists, source/target contents, fault subsets, start date) x W in 1..3 x all interleavings, Termination under fairness, "
              "and prints what the property prescribes per scenario. Sync.Run executes every scenario with recording, "
              "fault-injecting wrappers (a barrier forces workers to overlap) over in-memory and file-system targets for W in "
-             "{1,2,4,16}; final contents and returned errors are compared, call logs are validated by TLC (SyncTrace.tla), and the "
-             "scenarios run under the Go race detector.",
+             "{1,2,4,16}; final contents and returned errors are compared, call logs are validated by TLC (SyncTrace.tla; corrupted "
+             "copies must be rejected), and the scenarios run under the Go race detector. Beyond the property (spec/Tools.tla): every "
+             "Register/New history of the two factory registries replayed on the real ones, and the indicator-sync BINARY built from "
+             "/repo/cmd run on file-system repositories prepared from Sync.tla scenarios, twice, target directory and exit status "
+             "compared with Expected / Reported.",
         design_ref="DESIGN.md 2.6, 5 (C12)",
         note="Trusted: TLC, the recording wrappers, the Go race detector (data races are detected by it; the model shows them "
              "reachable in the design). Asset lists without duplicates; dates 1..5.",
@@ -131,7 +134,8 @@ CHECKS = {
              "truncating comparator leaves unranked. Backtest.Run runs with a recording Report (call log validated by TLC, "
              "BacktestTrace.tla; outcomes compared with direct evaluation on the look-back window), DataReport and HTMLReport (rows "
              "of <asset>.html / index.html parsed: one row per pair, ranking order, best entry) for W in {1,2,4,16}, and under the Go "
-             "race detector.",
+             "race detector. Beyond the property: the indicator-backtest BINARY built from /repo/cmd run with 1 and 4 workers, its HTML "
+             "output read back against ExactlyOnce / SameForAnyW.",
         design_ref="DESIGN.md 2.6, 5 (C13)",
         note="Trusted: TLC, the recording report, HTML row parsing, the Go race detector. Stub strategies (buy on the first snapshot, "
              "sell on a scripted one) stand for arbitrary strategies; per-strategy HTML pages are covered under C14.",
@@ -212,21 +216,22 @@ CHECKS["C09"] = dict(
 
 CHECKS["C01"] = dict(
     category="model_checking",
-    text="(1) spec/Formulas.tla transcribes the documented formula of 63 catalogue entries (57 of the 61 indicator types; not Po, "
-         "SuperTrend, Ichimoku's lagging span, Obv which is in part 2) from the doc comments, over exact rational arithmetic on "
+    text="(1) spec/Formulas.tla transcribes the documented formula of 68 catalogue entries (all 61 indicator types; Obv in part 2) "
+         "from the doc comments, over exact rational arithmetic on "
          "position-indexed series (operands are combined at the same position; a zero denominator gives Undef, which propagates). "
          "TLC evaluates them on EVERY input word of length warm-up+3..4 over small alphabets (ties, zeros, flat bars with high = low, "
          "zero volume, a negative number for numeric inputs) for periods 1..5 - 95 k words quick, 740 k thorough - and prints the exact "
          "values; the harness runs the real indicators on the same words and every defined position is compared (tolerance 1e-9, "
-         "squares where the formula takes a root): 0.4 M positions quick, 4.1 M thorough. (2) spec/Window.tla: the documented window "
+         "squares where the formula takes a root): 0.4 M positions quick, 4.1 M thorough; the 32 purely arithmetic entries also run on "
+         "the same words in the decimal unit 0.1 (not exactly representable values; expected = exact x 0.1^degree). (2) spec/Window.tla: the documented window "
          "function against the construction the code uses (Duplicate, Shift(P,0), running sum / multiset Insert-Remove, Skip) for "
          "MovingSum/Max/Min/SMA and OBV's recurrence, compared exactly on the real indicators.",
     design_ref="DESIGN.md 2.3, 5 (C01), 6",
     note="Trusted: TLC's evaluator, the transcription of the doc comments (where a doc comment leaves a seed or an average unstated - EMA "
          "seed = SMA, RSI averages = RMA, KAMA seed = previous price - the library's stated convention is taken), float tolerance 1e-9. "
          "Bounds: periods <= 5, words <= warm-up + 4, alphabets of 2-6 symbols; exact values must fit TLC's 32-bit integers, which "
-         "caps the word length of Kama, Trix, Ppo/Pvo, StochasticRsi. Positions with a zero denominator are exempt. Not covered: Po, "
-         "SuperTrend, Ichimoku lagging span (C02 finding), ill-conditioned float behaviour on real-valued data.",
+         "caps the word length of Kama, Trix, Ppo/Pvo, StochasticRsi. Positions with a zero denominator are exempt. Not covered: "
+         "ill-conditioned float behaviour on real-valued data (the decimal unit is the only non-dyadic one).",
     technique="TLC evaluation of the transcribed documented formulas on all small words + replay of every word on the real indicators",
     engine="tlc")
 
@@ -303,6 +308,14 @@ def main():
             {"name": "tlc", "path": "/opt/veriftools/tla/tla2tools.jar",
              "serves_properties": sorted(CHECKS), "kind_free_text": "TLA+ explicit-state model checker (TLC 1.8.0) over the "
              "specifications in /verif/spec, bound to the code by the Go harness in /verif/harness"},
+            {"name": "apalache", "path": "/opt/veriftools/apalache/bin/apalache-mc", "serves_properties": ["C17"],
+             "kind_free_text": "symbolic model checker for TLA+: discharges the inductive invariant of spec/RingInd.tla (unbounded element "
+             "values and histories), next to TLC's bounded exploration of spec/Ring.tla"},
+            {"name": "tlaps", "path": "/usr/local/bin/tlapm", "serves_properties": ["C03"],
+             "kind_free_text": "TLA+ proof system: proves the commutation lemma behind the ample-set reduction (spec/Commute.tla, 15 obligations)"},
+            {"name": "go-race-detector", "path": "go build -race", "serves_properties": ["C09", "C12", "C13"],
+             "kind_free_text": "data races are detected on the real code under the schedules the harness forces (barriers); the TLA+ models show "
+             "them reachable in the design"},
         ],
         "checks": [],
         "not_applicable": [],
